@@ -1,6 +1,7 @@
 //! vh - the Rust side of the correspondence checks.  Each subcommand runs the REAL
 //! amiquip code on generated / enumerated / corpus cases and writes what it did as
 //! Coq terms (case files) for the model and the property oracle to judge.
+mod c10;
 mod c14;
 mod consts;
 mod coqfmt;
@@ -58,8 +59,13 @@ fn main() {
             }
         }
     }
+    // panics of the code under test are observations, not noise
+    if std::env::var("VH_SHOW_PANICS").is_err() {
+        std::panic::set_hook(Box::new(|_| {}));
+    }
     match argv[1].as_str() {
         "consts" => consts::run(),
+        "c10" => c10::run(&a),
         "c14" => c14::run(&a),
         other => {
             eprintln!("unknown property driver {}", other);
